@@ -327,7 +327,13 @@ class ManifestContext:
             audio_adps = self.calculate_audio_adaptation_sets(stream)
             text_adps = self.calculate_text_adaptation_sets(
                 stream, video.lang)
-        assert video is not None
+        if video is None:
+            # a Period of an audio-only selection: keep an empty video set so
+            # that the code below has something to attach parameters to
+            video = AdaptationSet(
+                mode=self.options.mode, content_type='video', id=0,
+                segment_timeline=self.options.segmentTimeline)
+            video.compute_av_values()
         if timing:
             opts.availabilityStartTime = timing.availabilityStartTime
             opts.timeShiftBufferDepth = timing.timeShiftBufferDepth
